@@ -89,7 +89,7 @@ func TestVerifC17Close(t *testing.T) {
 	}
 	l := evlog.Open("C17")
 	defer l.Close()
-	causes := []string{"local-close", "remote-close", "remote-close-lost", "idle-timeout", "stateless-reset", "transport-error", "transport-close"}
+	causes := []string{"local-close", "remote-close", "remote-close-lost", "idle-timeout", "idle-timeout-replay", "stateless-reset", "transport-error", "transport-close"}
 	var cases []c17Case
 	rng := l.Rand("c17")
 	idx := 0
@@ -131,7 +131,7 @@ func TestVerifC17Close(t *testing.T) {
 			}
 			for si, s := range sets {
 				idle := []int{1000, 5000, 30000}[rng.IntN(3)]
-				if cause == "idle-timeout" || cause == "remote-close-lost" {
+				if cause == "idle-timeout" || cause == "idle-timeout-replay" || cause == "remote-close-lost" {
 					idle = []int{1000, 5000, 30000}[si%3]
 				}
 				client := "plain"
@@ -226,11 +226,15 @@ func runC17(l *evlog.Log, c *evlog.Case, cs *c17Case) {
 	if victimIsClient {
 		toVictim = wiretap.S2C
 	}
+	var lastShortRaw []byte // the last datagram delivered to the victim that consisted of 1-RTT packets
 	w.Router.SetOnDeliver(func(d *wiretap.DatagramInfo, mod wiretap.Mod) {
 		if d.Dir == toVictim {
 			rmu.Lock()
 			lastRecv = w.Router.Now()
 			firstAESendAfterRecv = -1
+			if len(d.Packets) > 0 && d.Packets[0].Kind == wiretap.KindOneRTT && mod == wiretap.NoMod {
+				lastShortRaw = append(lastShortRaw[:0], d.Raw...)
+			}
 			rmu.Unlock()
 		}
 	})
@@ -504,12 +508,32 @@ func runC17(l *evlog.Log, c *evlog.Case, cs *c17Case) {
 		wantVictim = "idle-timeout"
 		wantWire = "none"
 		maxWait = idle + 3*time.Second
-	case "idle-timeout":
+	case "idle-timeout", "idle-timeout-replay":
 		w.Router.SetBlackhole(wiretap.C2S, true)
 		w.Router.SetBlackhole(wiretap.S2C, true)
 		wantVictim = "idle-timeout"
 		wantWire = "none"
 		maxWait = idle + 3*time.Second
+		if cs.Cause == "idle-timeout-replay" {
+			// late in the silence somebody replays a datagram the victim has already processed: a duplicate is
+			// dropped, it is not "a packet received" that restarts the idle period
+			rmu.Lock()
+			replay := append([]byte(nil), lastShortRaw...)
+			rmu.Unlock()
+			if len(replay) == 0 {
+				c.Eval("")
+				l.Count("replay_no_datagram_recorded", 1)
+				return
+			}
+			from, to := net.Addr(quicworld.ServerAddr), net.Addr(quicworld.ClientAddr)
+			if !victimIsClient {
+				from, to = to, from
+			}
+			for _, frac := range []int{5, 8} {
+				w.Router.Inject(toVictim, from, to, replay, idle*time.Duration(frac)/10)
+			}
+			l.Count("replays_injected", 2)
+		}
 	case "stateless-reset":
 		var tok []byte
 		var tap *wiretap.ConnTap
@@ -618,7 +642,7 @@ func runC17(l *evlog.Log, c *evlog.Case, cs *c17Case) {
 		if doneAt-trigger > time.Second {
 			viol("cause-recorded-late", "context cancelled %s after the trigger", doneAt-trigger)
 		}
-	case "idle-timeout", "remote-close-lost":
+	case "idle-timeout", "idle-timeout-replay", "remote-close-lost":
 		rmu.Lock()
 		lr, fs := lastRecv, firstAESendAfterRecv
 		rmu.Unlock()
